@@ -192,6 +192,18 @@ def run(ctx):
                 tag += "+" + tag2
             if s:
                 judge_check_decoder(ctx, {"s": s, "tag": tag if "+" not in tag else "double"})
+    # Unicode confusables of alphabet characters (fullwidth / mathematical / case-folding look-alikes): never valid Base58
+    for _ in range(ctx.scale(800, 100000)):
+        valid = rb58.encode_check(gen_payload(rnd))
+        t, nrep = gen.confuse(rnd, valid)
+        if nrep:
+            judge_check_decoder(ctx, {"s": t, "tag": "confusable"})
+            try:
+                import btc_hd_wallet.helper as h
+                r = h.decode_base58(t)
+                ctx.judge("string_roundtrip", False, {"s": t, "tag": "confusable"}, "raise", r, cls="str|confusable", mech="C10.decode.accepted_non_alphabet")
+            except Exception:  # noqa
+                ctx.judge("string_roundtrip", True, {"s": t, "tag": "confusable"}, cls="str|confusable", outcome="raised")
     # raw (non-checksummed) encodings fed to the checksummed decoder, incl. short ones
     for _ in range(ctx.scale(600, 60000)):
         ln = rnd.choice([1, 2, 3, 4, 5, 8, 25])
@@ -201,6 +213,21 @@ def run(ctx):
         s = rb58.encode(raw)
         if s:
             judge_check_decoder(ctx, {"s": s, "tag": "raw-len%d" % ln})
+    # ALL strings of one and two alphabet characters (3422, exhaustive): every one is too short to hold a checksum
+    k2 = 0
+    for a in ALPH:
+        n += 1
+        if ctx.mine(n):
+            judge_check_decoder(ctx, {"s": a, "tag": "all-1char"})
+            for b in ALPH:
+                judge_check_decoder(ctx, {"s": a + b, "tag": "all-2char"})
+    # truncated checksums: payload followed by only the first 0..3 bytes of its checksum (incl. the empty payload)
+    for _ in range(ctx.scale(160, 20000)):
+        p = rnd.choice([b"", b"", b"\x00", gen.rbytes(rnd, rnd.randrange(0, 3)), gen_payload(rnd)])
+        for k in (0, 1, 2, 3):
+            s_ = rb58.encode(p + hash256(p)[:k])
+            if s_:
+                judge_check_decoder(ctx, {"s": s_, "tag": "truncated-checksum-%d" % k})
     # crafted: last four decoded bytes equal a *single* SHA-256 prefix, or hash of payload+checksum
     import hashlib
     for _ in range(ctx.scale(120, 8000)):
